@@ -849,3 +849,230 @@ Proof.
       by (unfold op_ops; rewrite map_map; reflexivity). exact Hnd.
   - unfold op_ops. apply in_map_iff. exists u0. split; [reflexivity|exact Hu0].
 Qed.
+
+(* ================================================================== 11. ClientForwardRefs: every evaluated name stays bound *)
+(* names an annotation EVALUATES when the `def` statement runs: plain names and subscript heads; a string constant
+   evaluates nothing *)
+Fixpoint ann_leaves (a : ann) : list string :=
+  match a with
+  | AName n => [n]
+  | ASub _ args => flat_map ann_leaves args
+  | _ => []
+  end.
+Fixpoint ann_heads (a : ann) : list string :=
+  match a with
+  | ASub h args => h :: flat_map ann_heads args
+  | _ => []
+  end.
+Definition ann_eval (a : ann) : list string := ann_heads a ++ ann_leaves a.
+
+Definition sig_anns (m : pmethod) : list ann :=
+  flat_map (fun p => match p_ann p with Some a => [a] | None => [] end) (m_params m)
+  ++ match m_returns m with Some a => [a] | None => [] end.
+Definition sig_eval (m : pmethod) : list string := flat_map ann_eval (sig_anns m).
+Definition sig_heads (m : pmethod) : list string := flat_map ann_heads (sig_anns m).
+
+Definition imported (imports : list imp) (n : string) : Prop := exists i, In i imports /\ In n (i_names i).
+
+Lemma fr_ann_heads : forall ic a, ann_heads (fst (fr_ann ic a)) = ann_heads a.
+Proof.
+  intros ic a. induction a using ann_ind'; simpl; try reflexivity.
+  - destruct (lookup n ic); reflexivity.
+  - f_equal. rewrite map_map. rewrite !flat_map_concat_map, map_map. f_equal.
+    apply map_ext_in. intros x Hx. rewrite Forall_forall in H. apply H; exact Hx.
+Qed.
+
+Lemma fr_ann_leaves : forall ic a n, In n (ann_leaves (fst (fr_ann ic a))) -> In n (ann_leaves a) /\ lookup n ic = None.
+Proof.
+  intros ic a. induction a using ann_ind'; simpl; intros m Hm; try contradiction.
+  - destruct (lookup n ic) eqn:E; simpl in Hm; [contradiction|].
+    destruct Hm as [<-|[]]. split; [left; reflexivity|exact E].
+  - rewrite map_map in Hm. apply in_flat_map in Hm. destruct Hm as [x [Hx Hin]].
+    apply in_map_iff in Hx. destruct Hx as [y [<- Hy]]. rewrite Forall_forall in H.
+    destruct (H y Hy m Hin) as [H1 H2]. split; [|exact H2].
+    apply in_flat_map. exists y. split; assumption.
+Qed.
+
+Lemma fr_reduce_keeps : forall removed imports n, imported imports n -> ~ In n removed -> imported (fr_reduce removed imports) n.
+Proof.
+  intros removed imports n [i [Hi Hn]] Hr. unfold fr_reduce.
+  assert (Hf : In n (filter (fun x => negb (mem x removed)) (i_names i))).
+  { apply filter_In. split; [exact Hn|]. destruct (mem n removed) eqn:E; [|reflexivity].
+    apply mem_In in E. contradiction. }
+  destruct (filter (fun x => negb (mem x removed)) (i_names i)) as [|x r] eqn:Ef; [contradiction|].
+  exists {| i_level := i_level i; i_module := i_module i; i_names := x :: r |}. split; [|exact Hf].
+  apply in_flat_map. exists i. split; [exact Hi|]. rewrite Ef. left; reflexivity.
+Qed.
+
+Lemma dedup_In : forall l x, In x (dedup l) -> In x l.
+Proof.
+  induction l as [|y r IH]; intros x H; simpl in *; [exact H|].
+  destruct (mem y r); [right; apply IH; exact H|].
+  destruct H as [<-|H]; [left; reflexivity|right; apply IH; exact H].
+Qed.
+
+Lemma fr_param_spec : forall ic p,
+  (forall n, In n (snd (fr_param ic p)) -> exists src, lookup n ic = Some src) /\
+  match p_ann (fst (fr_param ic p)), p_ann p with
+  | Some a', Some a => a' = fst (fr_ann ic a)
+  | None, None => True
+  | _, _ => False
+  end.
+Proof.
+  intros ic p. unfold fr_param. destruct (p_ann p) as [a|] eqn:E.
+  - destruct (fr_ann ic a) as [a' ns] eqn:Ea. simpl. rewrite ?E. split.
+    + intros n Hn. apply (fr_ann_names_local ic a). rewrite Ea. exact Hn.
+    + rewrite ?Ea. reflexivity.
+  - simpl. rewrite ?E. split; [intros n []|exact I].
+Qed.
+
+(* what fr_method does to a method: the facts the binding theorem needs *)
+Lemma fr_method_spec : forall ic m m' A B,
+  fr_method ic m = Some (m', A, B) ->
+  (forall n, In n A -> exists src, lookup n ic = Some src) /\
+  (forall n, In n B -> exists src, lookup n ic = Some src) /\
+  (forall n, In n (sig_eval m') -> In n (sig_heads m) \/ lookup n ic = None) /\
+  (forall cls, fr_last_class (m_body m) = Some cls ->
+     match lookup cls ic with
+     | Some from => In (SImport 1 from cls) (m_body m')
+     | None => True
+     end).
+Proof.
+  intros ic m m' A B H. unfold fr_method in H.
+  destruct (m_returns m) as [r|] eqn:Er.
+  - destruct (fr_ann ic r) as [r' rn] eqn:Ea.
+    assert (HA : forall n, In n (flat_map snd (map (fr_param ic) (m_params m)) ++ rn) -> exists src, lookup n ic = Some src).
+    { intros n Hn. apply in_app_or in Hn. destruct Hn as [Hn|Hn].
+      - apply in_flat_map in Hn. destruct Hn as [x [Hx Hin]]. apply in_map_iff in Hx. destruct Hx as [p [<- _]].
+        apply (proj1 (fr_param_spec ic p)). exact Hin.
+      - apply (fr_ann_names_local ic r). rewrite Ea. exact Hn. }
+    assert (HS : forall m1, m_params m1 = map fst (map (fr_param ic) (m_params m)) -> m_returns m1 = Some r' ->
+                 forall n, In n (sig_eval m1) -> In n (sig_heads m) \/ lookup n ic = None).
+    { intros m1 Hp Hr n Hn. unfold sig_eval, sig_anns in Hn. rewrite Hp, Hr in Hn.
+      apply in_flat_map in Hn. destruct Hn as [a [Ha Hin]]. apply in_app_or in Ha.
+      assert (Hcase : exists a0, In a0 (sig_anns m) /\ a = fst (fr_ann ic a0)).
+      { destruct Ha as [Ha|[<-|[]]].
+        - apply in_flat_map in Ha. destruct Ha as [p' [Hp' Hin']]. rewrite map_map in Hp'.
+          apply in_map_iff in Hp'. destruct Hp' as [p [<- Hp0]].
+          pose proof (proj2 (fr_param_spec ic p)) as Hs.
+          destruct (p_ann (fst (fr_param ic p))) as [a'|]; [|contradiction].
+          destruct Hin' as [<-|[]]. destruct (p_ann p) as [a0|] eqn:Ep; [|contradiction].
+          exists a0. split; [|exact Hs]. unfold sig_anns. apply in_or_app. left.
+          apply in_flat_map. exists p. split; [exact Hp0|]. rewrite Ep. left; reflexivity.
+        - exists r. split; [unfold sig_anns; rewrite Er; apply in_or_app; right; left; reflexivity|].
+          rewrite Ea. reflexivity. }
+      destruct Hcase as [a0 [Ha0 ->]]. unfold ann_eval in Hin. apply in_app_or in Hin. destruct Hin as [Hin|Hin].
+      - left. rewrite fr_ann_heads in Hin. unfold sig_heads. apply in_flat_map. exists a0. split; assumption.
+      - right. apply (fr_ann_leaves ic a0 n Hin). }
+    destruct (fr_last_class (m_body m)) as [cls|] eqn:El.
+    + destruct (lookup cls ic) as [from|] eqn:Ec; inversion H; subst; clear H.
+      * split; [exact HA|]. split; [intros n [<-|[]]; eauto|]. split; [apply HS; reflexivity|].
+        intros cls0 Hc. inversion Hc; subst. rewrite Ec. left; reflexivity.
+      * split; [exact HA|]. split; [intros n []|]. split; [apply HS; reflexivity|].
+        intros cls0 Hc. inversion Hc; subst. rewrite Ec. exact I.
+    + inversion H; subst; clear H. split; [exact HA|]. split; [intros n []|]. split; [apply HS; reflexivity|].
+      intros cls0 Hc. discriminate.
+  - (* no return annotation *)
+    assert (HA : forall n, In n (flat_map snd (map (fr_param ic) (m_params m)) ++ []) -> exists src, lookup n ic = Some src).
+    { intros n Hn. rewrite app_nil_r in Hn.
+      apply in_flat_map in Hn. destruct Hn as [x [Hx Hin]]. apply in_map_iff in Hx. destruct Hx as [p [<- _]].
+      apply (proj1 (fr_param_spec ic p)). exact Hin. }
+    assert (HS : forall m1, m_params m1 = map fst (map (fr_param ic) (m_params m)) -> m_returns m1 = None ->
+                 forall n, In n (sig_eval m1) -> In n (sig_heads m) \/ lookup n ic = None).
+    { intros m1 Hp Hr n Hn. unfold sig_eval, sig_anns in Hn. rewrite Hp, Hr, app_nil_r in Hn.
+      apply in_flat_map in Hn. destruct Hn as [a [Ha Hin]].
+      apply in_flat_map in Ha. destruct Ha as [p' [Hp' Hin']]. rewrite map_map in Hp'.
+      apply in_map_iff in Hp'. destruct Hp' as [p [<- Hp0]].
+      pose proof (proj2 (fr_param_spec ic p)) as Hs.
+      destruct (p_ann (fst (fr_param ic p))) as [a'|]; [|contradiction].
+      destruct Hin' as [<-|[]]. destruct (p_ann p) as [a0|] eqn:Ep; [|contradiction]. subst a'.
+      unfold ann_eval in Hin. apply in_app_or in Hin. destruct Hin as [Hin|Hin].
+      - left. rewrite fr_ann_heads in Hin. unfold sig_heads, sig_anns. apply in_flat_map. exists a0.
+        split; [|exact Hin]. apply in_or_app. left. apply in_flat_map. exists p. split; [exact Hp0|].
+        rewrite Ep. left; reflexivity.
+      - right. apply (fr_ann_leaves ic a0 n Hin). }
+    destruct (fr_last_class (m_body m)) as [cls|] eqn:El.
+    + destruct (lookup cls ic) as [from|] eqn:Ec; inversion H; subst; clear H.
+      * split; [exact HA|]. split; [intros n [<-|[]]; eauto|]. split; [apply HS; reflexivity|].
+        intros cls0 Hc. inversion Hc; subst. rewrite Ec. left; reflexivity.
+      * split; [exact HA|]. split; [intros n []|]. split; [apply HS; reflexivity|].
+        intros cls0 Hc. inversion Hc; subst. rewrite Ec. exact I.
+    + inversion H; subst; clear H. split; [exact HA|]. split; [intros n []|]. split; [apply HS; reflexivity|].
+      intros cls0 Hc. discriminate.
+Qed.
+
+Lemma fr_methods_spec : forall ic ms ms' A B,
+  fr_methods ic ms = Some (ms', A, B) ->
+  (forall n, In n A -> exists src, lookup n ic = Some src) /\
+  (forall n, In n B -> exists src, lookup n ic = Some src) /\
+  (forall m', In m' ms' -> exists m a b, In m ms /\ fr_method ic m = Some (m', a, b)).
+Proof.
+  intros ic. induction ms as [|m r IH]; intros ms' A B H; simpl in H.
+  - inversion H; subst. repeat split; intros ? [].
+  - destruct (fr_method ic m) as [[[m1 a1] b1]|] eqn:Em; [|discriminate].
+    destruct (fr_methods ic r) as [[[r2 a2] b2]|] eqn:Er; [|discriminate]. inversion H; subst; clear H.
+    destruct (fr_method_spec _ _ _ _ _ Em) as [HA [HB _]].
+    destruct (IH _ _ _ eq_refl) as [HA2 [HB2 HM]].
+    split; [intros n Hn; apply in_app_or in Hn; destruct Hn; [apply HA|apply HA2]; assumption|].
+    split; [intros n Hn; apply in_app_or in Hn; destruct Hn; [apply HB|apply HB2]; assumption|].
+    intros m' [<-|Hm'].
+    + exists m, a1, b1. split; [left; reflexivity|exact Em].
+    + destruct (HM m' Hm') as [m0 [a [b [Hin Hf]]]]. exists m0, a, b. split; [right; exact Hin|exact Hf].
+Qed.
+
+Lemma imported_app : forall l1 l2 n, imported l1 n -> imported (l1 ++ l2) n.
+Proof. intros l1 l2 n [i [Hi Hn]]. exists i. split; [apply in_or_app; left; exact Hi|exact Hn]. Qed.
+
+(* Every name the `def` statements of the deferred client evaluate (plain names and subscript heads of parameter
+   and return annotations), and the class each method validates with, is still bound: by a global import that was
+   kept, or — for the validated class — by the import placed at the top of the method.  Hypothesis: subscript heads
+   (Optional, List, Union, AsyncIterator ...) are not package imports; the tie checks it on every generated client. *)
+Theorem forward_refs_bound : forall c c',
+  fr_client c = Some c' ->
+  (forall m h, In m (cm_methods c) -> In h (sig_heads m) -> lookup h (fr_imported (cm_imports c)) = None) ->
+  forall m', In m' (cm_methods c') ->
+  exists m, In m (cm_methods c) /\
+    (forall n, In n (sig_eval m') -> imported (cm_imports c) n -> imported (cm_imports c') n) /\
+    (forall cls, fr_last_class (m_body m) = Some cls -> imported (cm_imports c) cls ->
+       imported (cm_imports c') cls \/ exists from, In (SImport 1 from cls) (m_body m')).
+Proof.
+  intros c c' H Hheads m' Hm'. unfold fr_client in H.
+  set (ic := fr_imported (cm_imports c)) in *.
+  destruct (fr_methods ic (cm_methods c)) as [[[ms A] B]|] eqn:Em; [|discriminate].
+  destruct (fr_methods_spec _ _ _ _ _ Em) as [HA [HB HM]].
+  assert (Hrem : forall n, In n (dedup A ++ B) -> exists src, lookup n ic = Some src).
+  { intros n Hn. apply in_app_or in Hn. destruct Hn as [Hn|Hn]; [apply HA, dedup_In; exact Hn|apply HB; exact Hn]. }
+  assert (Hkeep : forall n, lookup n ic = None -> imported (cm_imports c) n -> imported (cm_imports c') n /\ cm_methods c' = ms).
+  { intros n Hn Hi. destruct (dedup A ++ B) as [|x r] eqn:Ed.
+    - inversion H; subst. simpl. split; [exact Hi|reflexivity].
+    - destruct (fr_tc_imports ic (dedup A)); [|discriminate]. inversion H; subst. simpl.
+      split; [|reflexivity]. apply imported_app. apply fr_reduce_keeps; [exact Hi|].
+      intro Hc. destruct (Hrem n Hc) as [src Hs]. congruence. }
+  assert (Hms : cm_methods c' = ms).
+  { destruct (dedup A ++ B); [inversion H; reflexivity|].
+    destruct (fr_tc_imports ic (dedup A)); [|discriminate]. inversion H; reflexivity. }
+  rewrite Hms in Hm'. destruct (HM m' Hm') as [m [a [b [Hin Hf]]]].
+  destruct (fr_method_spec _ _ _ _ _ Hf) as [_ [_ [Hsig Hcls]]].
+  exists m. split; [exact Hin|]. split.
+  - intros n Hn Hi. destruct (Hsig n Hn) as [Hh|Hnone].
+    + apply (Hkeep n (Hheads m n Hin Hh) Hi).
+    + apply (Hkeep n Hnone Hi).
+  - intros cls Hc Hi. specialize (Hcls cls Hc). destruct (lookup cls ic) as [from|] eqn:El.
+    + right. exists from. exact Hcls.
+    + left. apply (Hkeep cls El Hi).
+Qed.
+
+(* ================================================================== 12. ShorterResults after ClientForwardRefs *)
+(* once the return annotation is a string constant (what ClientForwardRefs leaves behind), ShorterResults leaves
+   the method alone — for EVERY class dictionary and method: the order dependence is a property of the plugin pair *)
+Theorem shorter_noop_on_string_annotations : forall st m,
+  (exists s, m_returns m = Some (AConst s)) \/ (exists h s, m_returns m = Some (ASub h [AConst s])) ->
+  sh_method st m = Some (st, m).
+Proof.
+  intros st m H. unfold sh_method.
+  destruct (last (map Some (m_body m)) None) as [s0|]; [|reflexivity].
+  destruct H as [[s ->]|[h [s ->]]]; destruct s0; reflexivity.
+Qed.
+
+Lemma fr_ann_local_name : forall ic n src, lookup n ic = Some src -> fst (fr_ann ic (AName n)) = AConst n.
+Proof. intros ic n src H. simpl. rewrite H. reflexivity. Qed.
